@@ -555,3 +555,142 @@ Section Lang.
     destruct (waccepts en x0 w), (waccepts en x1 w); try reflexivity; [symmetry; apply E; reflexivity | apply E; reflexivity].
   Qed.
 End Lang.
+
+(** *** the reading of the repaired script: a point that expects an undefined nonterminal accepts
+    whatever is left; otherwise the piece that begins the rest is unique *)
+Definition has_any (mv : list (wleaf * rx wleaf)) : bool :=
+  existsb (fun ak => match fst ak with WAny => true | _ => false end) mv.
+
+Fixpoint sacc (en : env) (fuel : nat) (S : list (rx wleaf)) (rest : string) : bool :=
+  match rest with
+  | EmptyString => existsb nullable S
+  | _ =>
+      match fuel with
+      | O => false
+      | Datatypes.S f =>
+          let mv := flat_map lf S in
+          if has_any mv then true
+          else match first_lit mv rest with
+               | Some t => sacc en f (after_lit t mv) (sdrop (String.length t) rest)
+               | None =>
+                   match first_cmd en mv rest with
+                   | Some (c, o) => sacc en f (after_cmd c mv) (sdrop (String.length o) rest)
+                   | None => false
+                   end
+               end
+      end
+  end.
+
+Definition saccepts (en : env) (x : rx wleaf) (w : string) : bool := sacc en (String.length w) [x] w.
+
+Section StarFirst.
+  Variables (en : env) (x : rx wleaf).
+  Hypothesis Hdom : word_in_domain x.
+  Hypothesis Henv : env_word_ok en x.
+
+  Lemma sacc_sound : forall fuel S rest, winv x S -> sacc en fuel S rest = true ->
+    exists e, In e S /\ forall dn f, (String.length rest <= f)%nat ->
+      exists e' dn', In (e', dn', EmptyString) (wsplits en f e dn rest) /\ nullable e' = true.
+  Proof.
+    induction fuel as [| fuel IH]; intros S rest I H.
+    - destruct rest as [| ch r]; cbn [sacc] in H; [| discriminate].
+      apply existsb_exists in H. destruct H as [e [He Hn]]. exists e. split; [exact He |].
+      intros dn f _. exists e, dn. split; [destruct f; cbn [wsplits]; left; reflexivity | exact Hn].
+    - destruct rest as [| ch r].
+      + cbn [sacc] in H. apply existsb_exists in H. destruct H as [e [He Hn]]. exists e. split; [exact He |].
+        intros dn f _. exists e, dn. split; [destruct f; cbn [wsplits]; left; reflexivity | exact Hn].
+      + cbn [sacc] in H. set (rest := String ch r) in *. fold (mvs S) in H.
+        destruct (has_any (mvs S)) eqn:Ha.
+        * unfold has_any in Ha. apply existsb_exists in Ha. destruct Ha as [[a k] [Hmv Hk]]. cbn [fst] in Hk. destruct a; try discriminate.
+          destruct (winv_point x Hdom S I) as [_ [_ P3]]. destruct (eps_only_sound k (P3 k Hmv)) as [Hn _].
+          apply mvs_In in Hmv. destruct Hmv as [e [He Hlf]]. exists e. split; [exact He |]. intros dn f Hf.
+          destruct f as [| f]; [cbn in Hf; lia |].
+          exists k, (append dn rest). split; [| exact Hn]. cbn [wsplits]. right. apply in_flat_map. exists (WAny, k). split; [exact Hlf |].
+          cbn [fst snd]. apply in_flat_map. exists (rest, EmptyString). split.
+          -- apply wconsume_spec. split; [discriminate | split; [symmetry; apply append_nil_r | reflexivity]].
+          -- cbn [fst snd]. destruct f; cbn [wsplits]; left; reflexivity.
+        * destruct (first_lit (mvs S) rest) as [t |] eqn:El.
+          -- destruct (first_lit_some _ _ _ El) as [d [l [k0 [Hin [Hne Hp]]]]].
+             destruct (IH _ _ (winv_lit x S t d l k0 I Hin) H) as [k [Hk Hsp]].
+             apply after_lit_In in Hk. destruct Hk as [d' [l' Hmv]]. apply mvs_In in Hmv. destruct Hmv as [e [He Hlf]].
+             exists e. split; [exact He |]. intros dn f Hf.
+             assert (Hr : rest = append t (sdrop (String.length t) rest)) by (apply prefix_split; exact Hp).
+             destruct f as [| f]; [cbn in Hf; lia |].
+             destruct (Hsp (append dn t) f) as [e' [dn' [Hs Hn]]].
+             { pose proof (sdrop_prefix_shorter t rest Hp Hne). lia. }
+             exists e', dn'. split; [| exact Hn]. cbn [wsplits]. right. apply in_flat_map. exists (WLit t d' l', k). split; [exact Hlf |].
+             cbn [fst snd]. apply in_flat_map. exists (t, sdrop (String.length t) rest). split; [| exact Hs].
+             apply wconsume_spec. split; [exact Hne | split; [exact Hr | reflexivity]].
+          -- destruct (first_cmd en (mvs S) rest) as [[c o] |] eqn:Ec; [| discriminate].
+             destruct (first_cmd_some _ _ _ _ _ Ec) as [l [k0 [Hin [Hc [Hne Hp]]]]].
+             destruct (IH _ _ (winv_cmd x Hdom S c l k0 I Hin) H) as [k [Hk Hsp]].
+             apply after_cmd_In in Hk. destruct Hk as [l' Hmv]. apply mvs_In in Hmv. destruct Hmv as [e [He Hlf]].
+             exists e. split; [exact He |]. intros dn f Hf.
+             assert (Hr : rest = append o (sdrop (String.length o) rest)) by (apply prefix_split; exact Hp).
+             destruct f as [| f]; [cbn in Hf; lia |].
+             destruct (Hsp (append dn o) f) as [e' [dn' [Hs Hn]]].
+             { pose proof (sdrop_prefix_shorter o rest Hp Hne). lia. }
+             exists e', dn'. split; [| exact Hn]. cbn [wsplits]. right. apply in_flat_map. exists (WCmd c l', k). split; [exact Hlf |].
+             cbn [fst snd]. apply in_flat_map. exists (o, sdrop (String.length o) rest). split; [| exact Hs].
+             apply wconsume_spec. split; [exact Hne | split; [exact Hr | exact Hc]].
+  Qed.
+
+  Lemma sacc_complete : forall fuel S rest, winv x S -> (String.length rest <= fuel)%nat ->
+    (exists e e' dn, In e S /\ sp en e rest e' dn EmptyString /\ nullable e' = true) -> sacc en fuel S rest = true.
+  Proof.
+    induction fuel as [| fuel IH]; intros S rest I Hf [e [e' [dn [He [Hsp Hn]]]]].
+    - destruct rest as [| ch r]; [| cbn in Hf; lia]. cbn [sacc].
+      inversion Hsp as [e0 w0 | e0 w0 a k o r1 e1 d rest0 Hlf Hc Hsp']; subst.
+      + apply existsb_exists. exists e'. split; assumption.
+      + apply wconsume_spec in Hc. destruct Hc as [Hne [Hw _]]. destruct o; [contradiction | discriminate].
+    - destruct rest as [| ch r].
+      + cbn [sacc]. inversion Hsp as [e0 w0 | e0 w0 a k o r1 e1 d rest0 Hlf Hc Hsp']; subst.
+        * apply existsb_exists. exists e'. split; assumption.
+        * apply wconsume_spec in Hc. destruct Hc as [Hne [Hw _]]. destruct o; [contradiction | discriminate].
+      + cbn [sacc]. set (rest := String ch r) in *. fold (mvs S).
+        destruct (has_any (mvs S)) eqn:Ha; [reflexivity |].
+        inversion Hsp as [e0 w0 | e0 w0 a k o r1 e1 d rest0 Hlf Hc Hsp']; subst; try discriminate.
+        assert (Hmv : In (a, k) (mvs S)) by (apply mvs_In; exists e; split; assumption).
+        destruct (etok_consume en S a k o rest r1 Hmv Hc) as [[-> _] | [Het Hw]].
+        { exfalso. assert (Ht : has_any (mvs S) = true) by (unfold has_any; apply existsb_exists; exists (WAny, k); split; [exact Hmv | reflexivity]). congruence. }
+        destruct (etok_src en x Henv S _ _ _ I Het) as [Hne _].
+        assert (Hpo : String.prefix o rest = true) by (rewrite Hw; apply prefix_app_l).
+        assert (Hr1 : sdrop (String.length o) rest = r1) by (rewrite Hw; apply sdrop_app).
+        assert (Hlen : (String.length r1 <= fuel)%nat).
+        { pose proof (sdrop_prefix_shorter o rest Hpo Hne) as Hs. rewrite Hr1 in Hs. lia. }
+        assert (Hcomp : forall a2 k2 o2, etok en S a2 k2 o2 -> String.prefix o2 rest = true -> o2 = o /\ src_of a2 = src_of a).
+        { intros a2 k2 o2 E2 P2. destruct (prefixes_comparable o2 o _ P2 Hpo) as [Hc' | Hc'].
+          - apply (etok_prefix en x Henv S a2 k2 o2 a k o I E2 Het Hc').
+          - destruct (etok_prefix en x Henv S a k o a2 k2 o2 I Het E2 Hc') as [A B]. split; symmetry; assumption. }
+        destruct (first_lit (mvs S) rest) as [t' |] eqn:El.
+        * destruct (first_lit_some _ _ _ El) as [d' [l' [k' [Hin' [_ Hp']]]]].
+          destruct (Hcomp (WLit t' d' l') k' t' (conj Hin' eq_refl) Hp') as [-> Hsrc].
+          destruct a as [t0 d0 l0 | c0 l0 |]; cbn in Hsrc; try discriminate; [| destruct Het as [_ []]].
+          destruct Het as [_ Ht0]. cbn in Ht0. subst t0. rewrite Hr1.
+          apply (IH _ _ (winv_lit x S o d' l' k' I Hin') Hlen). exists k, e', d. split; [apply after_lit_In; eauto | split; assumption].
+        * destruct a as [t0 d0 l0 | c0 l0 |]; [| | destruct Het as [_ []]].
+          -- exfalso. destruct Het as [_ Ht0]. cbn in Ht0. subst t0.
+             rewrite (first_lit_none _ _ El o d0 l0 k Hmv Hne) in Hpo. discriminate.
+          -- destruct Het as [_ Hc0]. cbn in Hc0.
+             destruct (first_cmd en (mvs S) rest) as [[c' o'] |] eqn:Ec.
+             ++ destruct (first_cmd_some _ _ _ _ _ Ec) as [l' [k' [Hin' [Hc' [_ Hp']]]]].
+                destruct (Hcomp (WCmd c' l') k' o' (conj Hin' Hc') Hp') as [-> Hsrc]. cbn in Hsrc. inversion Hsrc; subst c'.
+                rewrite Hr1. apply (IH _ _ (winv_cmd x Hdom S c0 l' k' I Hin') Hlen).
+                exists k, e', d. split; [apply after_cmd_In; eauto | split; assumption].
+             ++ exfalso. rewrite (first_cmd_none _ _ _ Ec c0 l0 k o Hmv Hc0 Hne) in Hpo. discriminate.
+  Qed.
+
+  Theorem saccepts_waccepts w : saccepts en x w = waccepts en x w.
+  Proof.
+    assert (E : saccepts en x w = true <-> waccepts en x w = true).
+    { unfold saccepts. split.
+      - intro H. destruct (sacc_sound _ _ _ (winv_start x) H) as [e [[<- | []] Hsp]].
+        destruct (Hsp EmptyString (String.length w) (le_n _)) as [e' [dn' [Hs Hn]]].
+        unfold waccepts, wsplits_of. apply existsb_exists. exists (e', dn', EmptyString). split; [exact Hs |]. cbn. exact Hn.
+      - intro H. unfold waccepts, wsplits_of in H. apply existsb_exists in H. destruct H as [[[e' dn'] rest'] [Hin H]].
+        apply andb_true_iff in H. destruct H as [Hr Hn]. destruct rest'; [| discriminate].
+        destruct (wsplits_sp en _ _ _ _ _ _ _ Hin) as [d2 [Hsp _]].
+        apply (sacc_complete _ _ _ (winv_start x) (le_n _)). exists x, e', d2. split; [left; reflexivity | split; assumption]. }
+    destruct (saccepts en x w), (waccepts en x w); try reflexivity; [symmetry; apply E; reflexivity | apply E; reflexivity].
+  Qed.
+End StarFirst.
